@@ -80,10 +80,16 @@ def _check_overlapping_nodes(root: Node, start_line: int, end_line: int) -> bool
 
 
 def _walk_nodes(node: Node) -> Generator[Node, None, None]:
-    """Generator to walk all nodes in tree."""
-    yield node
-    for child in node.children:
-        yield from _walk_nodes(child)
+    """Generator to walk all nodes in tree (pre-order, iterative).
+
+    A recursive generator costs O(depth) per yielded node, which made deeply nested
+    code (e.g. a long else-if chain) take minutes.
+    """
+    stack = [node]
+    while stack:
+        current = stack.pop()
+        yield current
+        stack.extend(reversed(current.children))
 
 
 def _node_overlaps_and_matches(node: Node, ts_start: int, ts_end: int) -> bool:
